@@ -1,12 +1,16 @@
 #!/bin/sh
 # usage: tools/all_seeds.sh            -- every kept seed against the check of its property (apply to /repo, check, revert)
-# prints one line per seed: CAUGHT / MISSED / NOAPPLY
-cd /verif
+# prints one line per seed: CAUGHT / MISSED / NOAPPLY.  It patches /repo: run it only when nothing else uses /repo.
+cd "$(dirname "$0")/.." || exit 2
+V=$(pwd)
+git -C /repo diff --quiet || { echo "/repo is dirty"; exit 2; }
 for d in seeded/*/; do
   n=$(basename "$d"); p=$(echo "$n" | sed 's/^S[0-9]*-\(C[0-9]*\)-.*/\1/')
-  if ! git -C /repo apply --check "/verif/$d/patch.diff" 2>/dev/null; then echo "NOAPPLY $n"; continue; fi
-  git -C /repo apply "/verif/$d/patch.diff"
+  if ! git -C /repo apply --check "$V/$d/patch.diff" 2>/dev/null; then echo "NOAPPLY $n"; continue; fi
+  git -C /repo apply "$V/$d/patch.diff"
   out=$(./check "$p" 2>&1 | grep -E "^VIOLATION|^MACHINERY| quick:" | tail -1 | cut -c1-160)
   git -C /repo checkout -- .
   case "$out" in *" 0 violating"*) echo "MISSED  $n   $out";; *MACHINERY*) echo "BROKEN  $n   $out";; *) echo "CAUGHT  $n   $out";; esac
 done
+git -C /repo status --short
+echo SEEDS-DONE
